@@ -1,0 +1,44 @@
+//go:build verif
+
+// Contracts for package raycrossing, read by /verif's govc. Comment-only.
+package raycrossing
+
+// C11: one edge of the even-odd rule. The point is reported on the segment only if it is; it is reported
+// whenever it is on the segment, except when it coincides with p1 and nothing else decides (a closed ring
+// lists that vertex as p2 of the neighbouring edge); otherwise the crossing count grows by exactly the
+// indicator of "the edge crosses the open ray to the right of p".
+//@ func rayCrossingCounter.countSegment
+//@   floats real
+//@   requires len(counter.p) >= 2 && len(p1) >= 2 && len(p2) >= 2
+//@   ensures [monotone] old(counter.isPointOnSegment) ==> counter.isPointOnSegment
+//@   ensures [onsound] counter.isPointOnSegment && !old(counter.isPointOnSegment) ==> onSeg(counter.p[0], counter.p[1], p1[0], p1[1], p2[0], p2[1])
+//@   ensures [oncomplete] onSeg(counter.p[0], counter.p[1], p1[0], p1[1], p2[0], p2[1]) && !(counter.p[0] == p1[0] && counter.p[1] == p1[1]) ==> counter.isPointOnSegment
+//@   ensures [count] !counter.isPointOnSegment ==> counter.crossingCount == old(counter.crossingCount) + (crossesRay(counter.p[0], counter.p[1], p1[0], p1[1], p2[0], p2[1]) ? 1 : 0)
+//@   ensures counter.p == old(counter.p) && counter.crossingCount >= old(counter.crossingCount)
+//@   modifies *counter
+
+//@ func rayCrossingCounter.getLocation
+//@   floats real
+//@   requires counter.crossingCount >= 0
+//@   ensures res == (counter.isPointOnSegment ? 1 : (counter.crossingCount % 2 == 1 ? 0 : 2))
+//@   modifies nothing
+
+// the ring: Boundary only if p is on some edge, and whenever it is on an edge other than as that edge's
+// first-listed endpoint (for a closed ring every vertex is also the second endpoint of an edge); otherwise
+// Interior exactly when the number of edges crossing the ray is odd. Extra ordinates are never read.
+//@ func LocatePointInRing
+//@   floats real
+//@   lemmas mulCancel, mulCancel2, mulNonneg, mulMono
+//@   requires len(p) >= 2 && strideOf(layout) >= 2 && whole(len(ring), strideOf(layout))
+//@   ensures [boundary-sound] res == 1 ==> ringOn(p[0], p[1], cells(ring), off(ring), strideOf(layout), cnt(len(ring), strideOf(layout)) - 1)
+//@   ensures [boundary-complete] ringOnX(p[0], p[1], cells(ring), off(ring), strideOf(layout), cnt(len(ring), strideOf(layout)) - 1) ==> res == 1
+//@   ensures [parity] res != 1 ==> (res == 0 <==> ringCross(p[0], p[1], cells(ring), off(ring), strideOf(layout), cnt(len(ring), strideOf(layout)) - 1) % 2 == 1) && (res == 0 || res == 2)
+//@   modifies nothing
+//@   at stmt8: assert counter.isPointOnSegment ==> ringOn(p[0], p[1], cells(ring), off(ring), stride, m + 1) && m + 1 <= cnt(len(ring), stride) - 1
+//@   at stmt8: use ringOnMono(p[0], p[1], cells(ring), off(ring), stride, m + 1, cnt(len(ring), stride) - 1)
+//@   loop 1:
+//@     ghost m int = 0 step m + 1
+//@     invariant m >= 0 && i == mul(m + 1, stride) && stride == strideOf(layout) && mul(m + 2, stride) == mul(m + 1, stride) + stride && len(ring) == mul(cnt(len(ring), stride), stride) && (m == 0 || mul(m, stride) < len(ring))
+//@     invariant len(counter.p) >= 2 && counter.p == p && counter.crossingCount >= 0 && !counter.isPointOnSegment
+//@     invariant counter.crossingCount == ringCross(p[0], p[1], cells(ring), off(ring), stride, m)
+//@     invariant !ringOnX(p[0], p[1], cells(ring), off(ring), stride, m)
